@@ -696,6 +696,15 @@ func (fc *FuncCtx) evalSpecCall(st *State, e *SExpr, sc *specCtx) Val {
 		}
 		return fc.defaultCall(st, fv.FnObj, fv.Recv, args, resT, token.NoPos)
 	}
+	if fv.T != nil && fv.Typ != nil {
+		if sig, ok := types.Unalias(fv.Typ).Underlying().(*types.Signature); ok {
+			var resT types.Type = sig.Results()
+			if sig.Results().Len() == 1 {
+				resT = sig.Results().At(0).Type()
+			}
+			return fc.applyFnValue(st, fv, evalArgs(), resT)
+		}
+	}
 	panic(engineError{fmt.Sprintf("spec: cannot call %s", fun)})
 }
 
@@ -787,6 +796,19 @@ func (fc *FuncCtx) specBuiltin(st *State, name string, argEs []*SExpr, sc *specC
 			cur = Store(cur, IntLit(int64(i)), arg(i).T)
 		}
 		return Val{T: MkSlice(cur, IntLit(int64(len(argEs)))), Typ: types.NewSlice(types.Typ[types.Uint8])}, true
+	case "list":
+		// list(a, b, ...): the slice literal {a, b, ...} (e.g. the packed arguments of a variadic call)
+		if len(argEs) == 0 {
+			return Val{}, false
+		}
+		first := arg(0)
+		es := first.T.Sort
+		var cur *Term = &Term{Op: "const-array", Args: []*Term{fc.zeroElem(es)}, Sort: ArrayOf(SInt, es)}
+		cur = Store(cur, IntLit(0), first.T)
+		for i := 1; i < len(argEs); i++ {
+			cur = Store(cur, IntLit(int64(i)), fc.coerceTerm(arg(i).T, es))
+		}
+		return Val{T: MkSlice(cur, IntLit(int64(len(argEs))))}, true
 	case "strbytes":
 		a := arg(0)
 		return Val{T: App("str$bytes", SliceOf(SInt), a.T), Typ: types.NewSlice(types.Typ[types.Uint8])}, true
